@@ -1,4 +1,4 @@
-//@ unit u2c_deletion_build props C01 C09
+//@ unit u2c_deletion_build props C01 C12 also C09
 // Unit U2c: how a deletion submitted through the API is prepared (src/database/deletion.rs: DeletionQuery::build, the body of
 // its loop over the entities of the request, rule E14).  What validate_deletion (unit u2_verdicts) decides rests on what this
 // function records: for every reference it removes, the author and the room of the reference's SOURCE ROW and the date the row
@@ -87,6 +87,7 @@ pub open spec fn src_of(del: EntityDeletion, p: Parameters) -> Uid { spec_uid(sp
                             deletion_query.updated_nodes == q0.updated_nodes, deletion_query.replaced_versions == q0.replaced_versions,
                             is_prefix(q0.edges@, deletion_query.edges@),
                             edge_found == (deletion_query.edges@.len() > q0.edges@.len()),
+                            // [prepared_removals_record_the_source_row]{C01,C12}
                             forall|k: int| q0.edges@.len() <= k < deletion_query.edges@.len() ==> edge_of_row(#[trigger] deletion_query.edges@[k], *node, del.name@, date),
 //@ spec
         ensures
@@ -95,12 +96,12 @@ pub open spec fn src_of(del: EntityDeletion, p: Parameters) -> Uid { spec_uid(sp
             final(deletion_query).node_log == old(deletion_query).node_log && final(deletion_query).edge_log == old(deletion_query).edge_log
                 && is_prefix(old(deletion_query).nodes@, final(deletion_query).nodes@) && is_prefix(old(deletion_query).edges@, final(deletion_query).edges@)
                 && is_prefix(old(deletion_query).updated_nodes@, final(deletion_query).updated_nodes@),
-            // [removed_reference_records_its_source_row]{C01} every reference removal prepared for this entity records the author and the room of the stored source row and the date the row is re-dated to: the fields on which validate_deletion decides the right to change that row
+            // [removed_reference_records_its_source_row]{C01,C12} every reference removal prepared for this entity records the author and the room of the stored source row and the date the row is re-dated to: the fields on which validate_deletion decides the right to change that row
             r is Ok && final(deletion_query).edges@.len() > old(deletion_query).edges@.len() ==>
                 stored_row(src_of(*del, *old(parameters)), del.short_name@) is Some
                 && forall|k: int| old(deletion_query).edges@.len() <= k < final(deletion_query).edges@.len() ==>
                     edge_of_row(#[trigger] final(deletion_query).edges@[k], stored_row(src_of(*del, *old(parameters)), del.short_name@)->Some_0, del.name@, date),
-            // [source_row_redated_only_with_a_removed_reference]{C01} the source row is re-dated (and will be re-signed by the caller) only when a reference of it is really removed by this request, and it is that stored row, re-dated to the preparation date, nothing else changed
+            // [source_row_redated_only_with_a_removed_reference]{C01,C12} the source row is re-dated (and will be re-signed by the caller) only when a reference of it is really removed by this request, and it is that stored row, re-dated to the preparation date, nothing else changed
             r is Ok ==> final(deletion_query).updated_nodes@.len() <= old(deletion_query).updated_nodes@.len() + 1,
             r is Ok && final(deletion_query).updated_nodes@.len() > old(deletion_query).updated_nodes@.len() ==>
                 final(deletion_query).edges@.len() > old(deletion_query).edges@.len()
@@ -120,7 +121,7 @@ pub open spec fn src_of(del: EntityDeletion, p: Parameters) -> Uid { spec_uid(sp
                     None => final(deletion_query).replaced_versions@ == old(deletion_query).replaced_versions@,
                 }
             }),
-            // [row_named_for_deletion_is_the_stored_row]{C01} a row named for deletion is the stored row of that id and entity, under the entity name the rights are given on
+            // [row_named_for_deletion_is_the_stored_row]{C01,C12} a row named for deletion is the stored row of that id and entity, under the entity name the rights are given on
             r is Ok && final(deletion_query).nodes@.len() > old(deletion_query).nodes@.len() ==>
                 final(deletion_query).nodes@.len() == old(deletion_query).nodes@.len() + 1
                 && Some(final(deletion_query).nodes@.last().node) == stored_row(src_of(*del, *old(parameters)), del.short_name@)
